@@ -14,6 +14,7 @@ pub mod eqfam;
 pub mod jcsfam;
 pub mod parsefam;
 pub mod printfam;
+pub mod serdefam;
 
 pub fn run(id: &str, cfg: &Config) -> i32 {
 	match id {
@@ -32,6 +33,9 @@ pub fn run(id: &str, cfg: &Config) -> i32 {
 		"C12" => c12::run(cfg),
 		"C14" => eqfam::run_c14(cfg),
 		"C15" => eqfam::run_c15(cfg),
+		"C16" => serdefam::run_c16(cfg),
+		"C17" => serdefam::run_c17(cfg),
+		"C18" => serdefam::run_c18(cfg),
 		"C20" => c20::run(cfg),
 		_ => {
 			println!("INCONCLUSIVE property={} no such check", id);
@@ -75,6 +79,7 @@ pub fn replay(id: &str, cfg: &Config, path: &Path) -> i32 {
 		("C04" | "C08" | "C13", _) => printfam::replay_case(id, &case),
 		("C09" | "C10", _) => jcsfam::replay_case(id, &case),
 		("C11", _) => c11::replay_case(&case),
+		("C16" | "C17" | "C18", _) => serdefam::replay_case(id, &case),
 		("C14" | "C15", _) => eqfam::replay_case(id, &case),
 		("C20", _) => Some(if c20::run(cfg) == 0 { vec![] } else { vec!["C20 enumeration fails".to_string()] }),
 		_ => None,
